@@ -99,6 +99,11 @@ def regress_scenarios(full):
     # C14: resume after an id
     add([T(0, "t.a"), T(0, "t.b"), T(0, "t.c"), dict(a="reg", n="h1", c=0, k="h_after_1"), T(0, "t.d")],
         extra_kinds={"h_after_1": cat.handler_after(1)})
+    # C12: meta values (integers beyond 2^53, i64 bounds, floats, escapes, nesting) through nu and back
+    TM = lambda c, t="t.m": dict(a="trig", c=c, t=t, meta=cat.META_M)
+    add([R("h1", 0, "h_meta"), TM(0), TM(0, "t.n"), TM(1)], extra_kinds={"h_meta": cat.handler_meta()})
+    # C10: a byte stream arriving in pieces at the unbuffered .append of a command
+    add([D("c1", 0, "c_bytes"), CL("c1", 0), CL("c1", 0)], extra_kinds={"c_bytes": cat.command_bytes()})
     # C14 mode B: burst while the closure sleeps
     add([R("h1", 0, "h_slow"), T(0, "t.slow"), BURST([T(0, "t.x"), T(0, "t.y"), T(1, "t.x"), T(0, "t.z"), T(0, "t.x"), T(0, "t.y")]),
          T(0, "t.slow"), BURST([T(0, "t.x"), U("h1", 0), T(0, "t.y")])])
